@@ -1,7 +1,11 @@
 #!/bin/sh
-# run every behaviour-preserving refactoring patch through all checks; any detection is a false alarm
-for s in A B C D; do for f in /tmp/seedtask/ref$s/refactor_*.patch; do
-  r=$(/venv/bin/python /verif/tools/trypatch.py $f 2>&1 | grep -v conda | grep -v "^detected by" | cut -c1-230)
-  d=$(/venv/bin/python /verif/tools/trypatch.py $f 2>&1 | grep "^detected by")
-  echo "== ref$s $(basename $f) $d"; [ -n "$r" ] && echo "$r" | head -6
-done; done
+# run every behaviour-preserving refactoring patch (selftest/refactors/) through all checks,
+# 12 at a time; any detection is a false alarm
+cd /verif
+ls selftest/refactors/ref*_*.patch | xargs -P 12 -I{} sh -c '/venv/bin/python tools/trypatch.py {} > /tmp/ref_out_$(basename {}).txt 2>&1'
+for f in selftest/refactors/ref*_*.patch; do
+  o=/tmp/ref_out_$(basename $f).txt
+  echo "== $(basename $f) $(grep "^detected by" $o) $(grep -q STALE $o && echo STALE-PATCH)"
+  grep -v conda $o | grep -v '^detected by' | cut -c1-230 | head -6
+  rm -f $o
+done
